@@ -60,6 +60,10 @@ class DeblendMachine(Machine):
             'fault_tier': self.fault_tier,
             'det_connectivity': None,
         }
+        if cfg['entry'] == 'finder' and rng.chance(0.5):
+            # SourceFinder(npixels=(detection, deblending)): 'npixels' stays
+            # the deblending value, 'npixels_det' is the detection one
+            cfg['npixels_det'] = rng.pick([1, 2, 3, 5, 8, 12, 20])
         if rng.chance(0.04):
             cfg.update({'carpet': True, 'npixels': 1, 'nlevels': 32,
                         'mode': rng.pick(['exponential', 'sinh']),
@@ -267,7 +271,9 @@ class DeblendMachine(Machine):
         from photutils.segmentation import SourceFinder, deblend_sources
         c = st.cfg
         if st.entry == 'finder':
-            finder = SourceFinder(c['npixels'], connectivity=c['connectivity'],
+            npx = c['npixels'] if c.get('npixels_det') is None else (
+                c['npixels_det'], c['npixels'])
+            finder = SourceFinder(npx, connectivity=c['connectivity'],
                                   deblend=True, nlevels=c['nlevels'],
                                   contrast=c['contrast'], mode=c['mode'],
                                   relabel=c['relabel'], nproc=nproc,
@@ -391,7 +397,8 @@ class DeblendMachine(Machine):
             return
         if st.entry == 'finder':
             from photutils.segmentation import detect_sources
-            base = detect_sources(st.data, st.threshold, c['npixels'],
+            base = detect_sources(st.data, st.threshold,
+                                  c.get('npixels_det') or c['npixels'],
                                   connectivity=c['connectivity'])
             in_arr = base.data
             st.in_arr = in_arr
